@@ -381,14 +381,21 @@ fn read_texture(f: &mut BinReader, emitter: &impl Emitter, with_images: bool) ->
     }
 }
 
+/// Narrow a header value for a 16-bit field, failing with a diagnostic if it does not fit.
+fn fit_u16(f: &BinWriter, field: &str, value: u32) -> Result<u16, ErrorReported> {
+    u16::try_from(value).map_err(|_| f.emitter().emit(error!(
+        "{field} {} does not fit in the 16-bit field used by this format", value as i32,
+    )))
+}
+
 #[inline(never)]
 fn write_texture(f: &mut BinWriter, data: &TextureData, metadata: &TextureMetadata) -> WriteResult {
     f.write_all(b"THTX")?;
 
     f.write_u16(0)?;
-    f.write_u16(metadata.format as _)?;
-    f.write_u16(metadata.width as _)?;
-    f.write_u16(metadata.height as _)?;
+    f.write_u16(fit_u16(f, "image format", metadata.format)?)?;
+    f.write_u16(fit_u16(f, "image width", metadata.width)?)?;
+    f.write_u16(fit_u16(f, "image height", metadata.height)?)?;
 
     f.write_u32(data.data.len() as _)?;
     f.write_all(&data.data)?;
@@ -503,7 +510,7 @@ impl FileFormat {
             f.write_u32(header.version)?;
             f.write_u32(header.memory_priority)?;
             f.write_u32(header.thtx_offset.map(NonZeroU64::get).unwrap_or(0) as _)?;
-            f.write_u16(header.has_data as _)?;
+            f.write_u16(fit_u16(f, "has_data", header.has_data)?)?;
             f.write_u16(0)?;
             f.write_u32(header.next_offset as _)?;
             f.write_u32(0)?;
@@ -511,19 +518,19 @@ impl FileFormat {
         } else {
             // new format
             f.write_u32(header.version as _)?;
-            f.write_u16(header.num_sprites as _)?;
-            f.write_u16(header.num_scripts as _)?;
+            f.write_u16(fit_u16(f, "num_sprites", header.num_sprites)?)?;
+            f.write_u16(fit_u16(f, "num_scripts", header.num_scripts)?)?;
             f.write_u16(0)?;
-            f.write_u16(header.rt_width as _)?;
-            f.write_u16(header.rt_height as _)?;
-            f.write_u16(header.rt_format as _)?;
+            f.write_u16(fit_u16(f, "rt_width", header.rt_width)?)?;
+            f.write_u16(fit_u16(f, "rt_height", header.rt_height)?)?;
+            f.write_u16(fit_u16(f, "rt_format", header.rt_format)?)?;
             f.write_u32(header.name_offset as _)?;
-            f.write_u16(header.offset_x as _)?;
-            f.write_u16(header.offset_y as _)?;
+            f.write_u16(fit_u16(f, "offset_x", header.offset_x)?)?;
+            f.write_u16(fit_u16(f, "offset_y", header.offset_y)?)?;
             f.write_u32(header.memory_priority as _)?;
             f.write_u32(header.thtx_offset.map(NonZeroU64::get).unwrap_or(0) as _)?;
-            f.write_u16(header.has_data as _)?;
-            f.write_u16(header.low_res_scale as _)?;
+            f.write_u16(fit_u16(f, "has_data", header.has_data)?)?;
+            f.write_u16(fit_u16(f, "low_res_scale", header.low_res_scale)?)?;
             f.write_u32(header.next_offset as _)?;
             f.write_u32s(&[0; 6])?;
         }
